@@ -50,6 +50,10 @@ where
     pub fn reset_max(&self) {
         self.max
             .store(self.used.load(Ordering::Acquire), Ordering::Release);
+        // An allocation on another thread may have published its usage
+        // between that load and the store, which then overwrote it.
+        self.max
+            .fetch_max(self.used.load(Ordering::Acquire), Ordering::AcqRel);
     }
 
     /// Returns the peak memory that's been used since startup or since
